@@ -520,13 +520,15 @@ PROPS["C10"] = dict(
     obligations=[
         K("c10", "c10_is_check_contract", desc="Board::is_check(c) <=> king(c) on a square of colored_attacks(!c); State::is_check is that for "
           "the side to move; fully symbolic position, arbitrary attacked sets, loop-free", functions=["Board::is_check", "State::is_check"]),
-        K("c10", "c10_from_occupancy_spike", kind="bounded", bound="<= 5 own pieces per kind; attack function = one symbolic spike",
+        K("c10", "c10_from_occupancy_spike", kind="bounded", bound="<= 3 pieces per kind and colour; attack function = one symbolic spike",
+          unwindset_rules=[("from_occupancy", r"occupancy\.pop\(\)", 4, 0)],
           desc="AttackMap::from_occupancy with A = X at one symbolic (piece, square, occupancy) and 0 elsewhere: all == X & !own exactly when that "
           "piece stands there and the board's occupancy is passed, empty otherwise; pawn map likewise for pawns",
           functions=["AttackMap::from_occupancy", "BitBoard::pop"], timeout=1800),
         K("c10", "c10_from_occupancy_spike_10", desc="same with <= 10 pieces per kind and colour -- the maximum in a legal position, so complete "
           "under valid_board", functions=["AttackMap::from_occupancy"], timeout=5400, tier="thorough", heavy=True),
-        K("c10", "c10_board_queries_quick", kind="bounded", bound="<= 5 pieces per kind and colour; spike attack function; one colour", desc="colored_attacks "
+        K("c10", "c10_board_queries_quick", kind="bounded", bound="<= 3 pieces per kind and colour; spike attack function; one colour",
+          unwindset_rules=[("from_occupancy", r"occupancy\.pop\(\)", 4, 0)], desc="colored_attacks "
           "and is_check give the same answers on a board, on a clone taken before any query and on a clone taken after (fresh computation "
           "vs. copied cache)", functions=["Board::{attack_map,colored_attacks,is_check,new,clone}"], timeout=1800),
         K("c10", "c10_board_queries_contract", tier="thorough", heavy=True, kind="bounded", bound="<= 5 pieces per kind and colour; spike attack function", desc="colored_attacks / "
@@ -544,7 +546,7 @@ PROPS["C10"] = dict(
                "board occupancy) minus own pieces and nothing else (spike attack function, fully symbolic positions), pawn map likewise; "
                "cached answers independent of query order and of cloning before/after. <= 10 pieces per kind (complete for legal "
                "positions) in the thorough tier.",
-    level_note="Quick tier bounds piece counts to 5 per kind and colour (10, the legal maximum, in the thorough tier); the attack function "
+    level_note="Quick tier bounds piece counts to 3 per kind and colour (5 and 10, the legal maximum, in the thorough tier); the attack function "
                "is a symbolic spike (see assumptions).",
 )
 
